@@ -177,7 +177,21 @@ def compare_runs(ctx, family, lines, labels, runs, classify=None, describe=None)
     return probes
 
 
+SELFTEST_EXPECTED = ["site_x_src_lib_rs_a_1", "site_x_src_lib_rs_b_1", "site_x_src_lib_rs_c_1", "site_x_src_lib_rs_f_1",
+                     "site_x_src_lib_rs_g_1", "site_x_src_lib_rs_h_1", "site_x_src_lib_rs_j_1", "site_x_src_lib_rs_j_2",
+                     "site_x_src_lib_rs_k_1"]
+
+
+def scanner_selftest():
+    """the scanner on a file with every enumeration form it claims to recognise (and look-ups, an IndexMap, shadowing
+    and a #[cfg(test)] module that must not be reported)"""
+    got = [s["id"] for s in c22_sites.scan(VERIF / "corpus" / "C22" / "scanner_selftest")]
+    if got != SELFTEST_EXPECTED:
+        raise MachineryError(f"the site scanner no longer recognises its own test file: {got}")
+
+
 def run(ctx):
+    scanner_selftest()
     quick = ctx.tier == "quick"
     repo = Path(os.environ.get("VERIF_REPO", str(REPO)))
     # (1) regenerate the list of enumeration sites from the source tree
